@@ -7,6 +7,7 @@
    eigen-decomposition, and the accuracy bound (Hochbruck-Lubich) 'whenever spectral width times |dt| is moderate'. *)
 From Coq Require Import List Arith Ring.
 From Yaqs Require Import Model.Krylov Proofs.KrylovP LinAlg.TT.
+From Yaqs Require LinAlg.Intertwine.
 
 Theorem C19_exit_well_defined : forall m small conv, 1 <= m -> 1 <= exit_dim (krylov_exit m small conv) <= m.
 Proof. exact exit_well_defined. Qed.
@@ -34,3 +35,15 @@ Theorem C19_phases_preserve_norm : forall (K : Type) (k0 k1 : K) (kadd kmul ksub
   nrm2 K k0 kadd kmul cj n (fun l => kmul (e l) (c l)) = nrm2 K k0 kadd kmul cj n c.
 Proof. exact phases_preserve_norm. Qed.
 Print Assumptions C19_phases_preserve_norm.
+
+(* the breakdown exit is exact: when the Krylov space is invariant (a * V = V * t, no residual), every polynomial of the operator
+   acts on the space as the same polynomial of the small matrix — in any ring (LinAlg/Intertwine.v); coefficients are pairs
+   (c * I_big, c * I_small), which are intertwined themselves *)
+Theorem C19_polynomial_exact_on_invariant_subspace :
+  forall (R : Type) (ring0 ring1 : R) (add mul sub : R -> R -> R) (opp : R -> R) (req : R -> R -> Prop)
+         (Rops : @Ncring.Ring_ops R ring0 ring1 add mul sub opp req), @Ncring.Ring R ring0 ring1 add mul sub opp req Rops ->
+  forall (V a t : R) (cs : list (R * R)),
+  Intertwine.inter V a t -> List.Forall (fun p => Intertwine.inter V (fst p) (snd p)) cs ->
+  forall d, Intertwine.inter V (Intertwine.peval (List.map fst cs) a d) (Intertwine.peval (List.map snd cs) t d).
+Proof. exact @Intertwine.polynomial_exact_on_invariant_subspace. Qed.
+Print Assumptions C19_polynomial_exact_on_invariant_subspace.
